@@ -36,7 +36,8 @@
 (*                                                                         *)
 (* For EVERY table, EVERY honest filling of the looking slots, EVERY single *)
 (* corruption of a cell (looking input / output, padding slot, table cell,  *)
-(* multiplicity) and EVERY challenge:                                        *)
+(* multiplicity; a table output cell together with all its lookups) and     *)
+(* EVERY challenge:                                                         *)
 (*  Complete: a good assignment is accepted for every (b, delta) and every   *)
 (*    (a, alpha) that is not a pole, with the accumulators of                *)
 (*    compute_lookup_polys;                                                  *)
@@ -176,6 +177,12 @@ Init ==
                                                 /\ cor = ed
                                                 /\ lk = ApplyEdit(h, ed).lk
                                                 /\ tb = ApplyEdit(h, ed).tb
+                    \* a table entry's output cell AND every lookup of that entry carry the same wrong output
+                    \/ \E e \in 1..Len(t), v \in Vals :
+                         /\ v # t[e][2]
+                         /\ cor = <<"tbl_lk", e, v>>
+                         /\ lk = [j \in DOMAIN h.lk |-> IF h.lk[j] = t[e] THEN <<t[e][1], v>> ELSE h.lk[j]]
+                         /\ tb = [h.tb EXCEPT ![e][2] = v]
             ELSE \E o \in TablesOfLen(Len(t)) \ {t} :
                  /\ oth = o
                  /\ \/ cor = <<"none">> /\ lk = h.lk /\ tb = h.tb
@@ -212,6 +219,8 @@ Sound == Done => /\ (~GoodTable => accRE <= BoundRE)
 \* property level: a looking pair outside the designated table is accepted for few challenges only
 \* (total accepted fraction <= max(BoundRE, BoundLD) / P^2 plus the poles, at most slots * P of P^2 points)
 PropSound == Done /\ ~GoodPairs => accRE <= BoundRE \/ accLD <= BoundLD
+\* a wrong output shared by a table cell and all its lookups passes the whole Sum / LDC part: only the RE terms reject it
+TblLkOnlyRE == Done /\ cor[1] = "tbl_lk" => accLD = nonPole /\ ~GoodTable /\ ~GoodPairs
 \* the poles are few: the statement above covers all but a slots/P fraction of the challenges
 PolesFew == Done => P * P - nonPole <= (Len(tb) + Len(lk)) * P
 =============================================================================
